@@ -148,6 +148,151 @@ def show_lex(toks, cm) -> str:
     return ",".join(f"{enc(a)}:{enc(b)}" for a, b in toks) + ";" + enc(cm)
 
 
+# ------------------------------------------------------------------ adversarial comment texts (shared by C08 / C09)
+#
+# Two families of text that a comment sanitiser + a later text-processing step can get wrong although every
+# "ordinary" delimiter / line break is handled:
+#  (a) *compatibility look-alikes*: code points that Unicode normalisation (NFKC / NFKD), case folding or case
+#      mapping turn into a comment delimiter (full-width, small-form, super/subscript, enclosed forms ...), and the
+#      code points Python's own text functions treat as line boundaries (str.splitlines: NEL, LS, PS, FS ...).  The
+#      tables are *derived* from `unicodedata` / `str`, not written down.
+#  (b) *self-nested / overlapping closers*: the closing symbol inserted into itself, repeated, overlapped or split
+#      by something a sanitiser removes (a line break, a zero-width / ignorable character), so that deleting one
+#      occurrence - or the separator - creates another one.
+# Every text puts executable-looking words after the dangerous part.
+
+PAYLOADS = ["G1 X9", "M3 S1000", "G0 Z-5", "M112", "G28", "T2 M6"]
+IGNORABLE = ["\u200b", "\u200d", "\ufeff", "\u00ad", "\u2060", "\x00", "\x7f", "\u0301"]
+_LOOKALIKES = None
+
+
+def lookalikes():
+    """{ASCII delimiter character: (exact, containing)}: code points other than the character itself that some
+    normalisation form / case mapping maps exactly onto it, resp. onto a string containing it"""
+    global _LOOKALIKES
+    if _LOOKALIKES is None:
+        import unicodedata as U
+
+        targets = set("".join(ALL_SYMBOLS) + "".join(PAIRS.values()) + " ")
+        exact_, cont = {t: [] for t in targets}, {t: [] for t in targets}
+        for cp in range(0x80, 0x20000):
+            if 0xD800 <= cp < 0xE000:
+                continue
+            c = chr(cp)
+            forms = {U.normalize("NFKC", c), U.normalize("NFKD", c), c.casefold(), c.lower(), c.upper()} - {c}
+            if not forms:
+                continue
+            for t in targets.intersection("".join(forms)):
+                if t in forms:
+                    exact_[t].append(c)
+                elif any(t in f for f in forms):
+                    cont[t].append(c)
+        _LOOKALIKES = {t: (exact_[t], cont[t]) for t in sorted(targets)}
+    return _LOOKALIKES
+
+
+_LINE_BOUNDARIES = None
+
+
+def line_boundaries():
+    """characters other than CR / LF at which `str.splitlines` breaks a text (what a step that re-splits or
+    re-joins lines would treat as a line break)"""
+    global _LINE_BOUNDARIES
+    if _LINE_BOUNDARIES is None:
+        _LINE_BOUNDARIES = [chr(c) for c in range(0x3000) if chr(c) not in "\r\n" and len(f"a{chr(c)}b".splitlines()) > 1]
+    return _LINE_BOUNDARIES
+
+
+def disguise(rng, symbol: str, all_chars=False) -> str:
+    """the symbol with one (or every) character replaced by a look-alike code point; '' when it has none"""
+    tab = lookalikes()
+    idx = [i for i, ch in enumerate(symbol) if tab.get(ch, ([], []))[0] or tab.get(ch, ([], []))[1]]
+    if not idx:
+        return ""
+    chosen = idx if all_chars else [rng.choice(idx)]
+    out = list(symbol)
+    for i in chosen:
+        ex, co = tab[symbol[i]]
+        pool = ex if ex and (not co or rng.random() < 0.7) else co
+        out[i] = rng.choice(pool)
+    return "".join(out)
+
+
+def nestings(closing: str):
+    """the closing symbol nested in itself / overlapping itself (deleting one occurrence leaves another)"""
+    c = closing
+    out = []
+    for k in range(1, max(len(c), 2)):
+        k = min(k, len(c))
+        one = c[:k] + c + c[k:]
+        out += [one, c[:k] + one + c[k:], c[:k] * 3 + c + c[k:] * 3]
+    out += [c + c, c * 3, c[0] + c, c + c[-1], c + " " + c]
+    return out
+
+
+def splits(rng, closing: str):
+    """the closing symbol with something removable between / around its characters"""
+    c = closing
+    sep = rng.choice(IGNORABLE + ["\r", "\n", "\r\n", "\n\n"] + line_boundaries())
+    if len(c) > 1:
+        k = rng.randrange(1, len(c))
+        return c[:k] + sep + c[k:]
+    return rng.choice([sep + c, c + sep, c + sep + c])
+
+
+def adversarial_text(rng, opening: str, closing: str) -> str:
+    """one text of the families above, for the comment style (opening, closing or '') in force"""
+    pay = rng.choice(PAYLOADS)
+    lead = rng.choice(["", "", "a ", "see ", "注 ", "é", " "])
+    tail = rng.choice(["", "", " ", " " + opening + " b", " " + closing if closing else " end"])
+    r = rng.random()
+    danger = ""
+    if closing and r < 0.34:
+        pool = nestings(closing)
+        k = 3 * max(len(closing) - 1, 1)  # the first k are the closer inserted into itself (1, 2, 3 levels deep)
+        danger = rng.choice(pool[:k]) if rng.random() < 0.6 else rng.choice(pool[k:])
+    elif closing and r < 0.44:
+        danger = splits(rng, closing)
+    elif r < 0.80:
+        # look-alike of the closing symbol (mostly), of the opening one or of any other delimiter
+        q = rng.random()
+        sym = closing if closing and q < 0.7 else opening if q < 0.85 else rng.choice(ALL_SYMBOLS + list(PAIRS.values()))
+        danger = disguise(rng, sym, all_chars=rng.random() < 0.5)
+        if danger and closing and rng.random() < 0.25:
+            danger = rng.choice([closing + " " + danger, danger + closing, danger * 2])
+    if not danger:
+        # look-alikes of a line break, in front of the payload
+        danger = rng.choice(line_boundaries()) * rng.choice([1, 1, 2])
+        if rng.random() < 0.3:
+            danger = rng.choice(["\r", "\n"]) + danger
+    glue = rng.choice([" ", " ", "", "  ", rng.choice(lookalikes()[" "][0])])
+    return f"{lead}{danger}{glue}{pay}{tail}"
+
+
+_REVERSE = None
+
+
+def text_features(text: str, closing: str):
+    """labels for the distribution report"""
+    global _REVERSE
+    out = []
+    if not text.isascii():
+        if _REVERSE is None:
+            _REVERSE = {}
+            for t, (ex, co) in lookalikes().items():
+                for ch in ex + co:
+                    _REVERSE.setdefault(ch, set()).add(t)
+        if closing and any(_REVERSE.get(ch, set()) & set(closing) for ch in text):
+            out.append("look-alike-of-closing")
+        elif any(_REVERSE.get(ch, set()) - {" "} for ch in text):
+            out.append("look-alike-of-other-delimiter")
+    if any(ch in text for ch in line_boundaries()):
+        out.append("line-boundary-other-than-CR/LF")
+    if closing and any(n in text for n in nestings(closing)[:3 * max(len(closing) - 1, 1)]):
+        out.append("closing-nested-in-itself")
+    return out
+
+
 # ------------------------------------------------------------------ numbers: exact values, trusted shortest digits
 
 
